@@ -543,10 +543,6 @@ end
 
 /-! ### get: the node at `p` holds exactly the keys below `p` -/
 
-/-- key relative to `p`, if `p` is a prefix of it -/
-def strip (p : Path) (kv : Path × V) : Option (Path × V) :=
-  if p.isPrefixOf kv.1 then some (kv.1.drop p.length, kv.2) else none
-
 theorem strip_nil (kv : Path × V) : strip [] kv = some kv := by
   simp [strip]
 
